@@ -4,6 +4,7 @@ import (
 	"bytes"
 	"encoding/json"
 	"fmt"
+	"regexp"
 	"strings"
 	"time"
 
@@ -164,6 +165,7 @@ type c02Drv struct {
 	Payload string `json:"payload"`
 	Sizes   []int  `json:"sizes"`
 	SplitU  bool   `json:"splitU"`
+	SplitD  bool   `json:"splitD"`
 	Echo    bool   `json:"echo"`
 	Result  string `json:"result"`
 	Failed  bool   `json:"failed"`
@@ -283,7 +285,7 @@ func c02DrvOne(s *c02Drv, segIdx int) verdict {
 	nreq, lastID := 0, 0
 
 	sess, err := newNcSession(ncConfig{
-		adv10: true, adv11: true, preferred: s.Version, echo: s.Echo, seg: sg.seg, seed: int64(s.ID), timeout: 1500 * time.Millisecond, extra: extra,
+		adv10: true, adv11: true, preferred: s.Version, echo: s.Echo, seg: sg.seg, seed: int64(s.ID), timeout: 1500 * time.Millisecond, extra: extra, trace: true,
 		reply: func(_ *simdev.NCServer, r simdev.NCRequest) []byte {
 			nreq++
 			lastID = r.MsgID
@@ -302,6 +304,12 @@ func c02DrvOne(s *c02Drv, segIdx int) verdict {
 			sizes := []int{}
 			sym := []rune(s.Payload)
 			pos, prevEnd := 0, 0
+
+			if s.SplitD && len(sym) > 0 && sym[0] == 'D' && ends[0] > 2 {
+				// the first chunk ends inside the XML declaration: what is trimmed is the declaration of the PAYLOAD, not of a chunk
+				prevEnd = 1 + (s.ID*7)%(ends[0]-1)
+				sizes = append(sizes, prevEnd)
+			}
 
 			for _, n := range s.Sizes {
 				pos += n
@@ -394,7 +402,7 @@ func c02DrvOne(s *c02Drv, segIdx int) verdict {
 
 	// the input class of the known finding: on the wire, a line starts with "##" before the end-of-chunks marker - a data
 	// line of the payload, or a chunk whose data starts with "##" (chunk data always follows the LF of its header)
-	if s.Version == "1.1" && len(reply) > 4 && bytes.Contains(reply[:len(reply)-4], []byte("\n##")) {
+	if s.Version == "1.1" && len(reply) > 4 && bytes.Contains(reply[:len(reply)-4], []byte("\n##")) && c02PrematureEnd(sess.pipe.Snapshot(), reply) {
 		sigTag = ":data-line-starts-with-##"
 	}
 
@@ -463,4 +471,37 @@ func c02drv(_ []string) error {
 	parallel(len(jobs), 12, func(i int) { emit(c02DrvOne(jobs[i].s, jobs[i].seg)) })
 
 	return nil
+}
+
+var c02EndOfChunks = regexp.MustCompile(`(?m)^##$`)
+
+// c02PrematureEnd decides the input class of the known finding exactly: the read loop looks for a line "##" in what it has read
+// so far, after every transport read. The class is: some read ended inside the reply (before its end-of-chunks marker) with a
+// line "##" - or a line beginning "##" cut right behind these two characters - already in view.
+func c02PrematureEnd(evs []simdev.Event, reply []byte) bool {
+	var stream []byte
+
+	var ends []int
+
+	for _, e := range evs {
+		if e.Ev == "deliver" {
+			stream = append(stream, e.B...)
+			ends = append(ends, len(stream))
+		}
+	}
+
+	at := bytes.LastIndex(stream, reply)
+	if at < 0 {
+		// the reply was not delivered in one piece of the stream as expected (late bytes, loss): keep the wide class
+		return true
+	}
+
+	for _, q := range ends {
+		k := q - at
+		if k > 0 && k <= len(reply)-4 && c02EndOfChunks.Match(reply[:k]) {
+			return true
+		}
+	}
+
+	return false
 }
